@@ -35,6 +35,8 @@ var uninterp = map[string]uninterpFn{
 	"rune_count":   {[]string{"Str"}, "Int", types.Typ[types.Int]},
 	"str_repeat":   {[]string{"Str", "Int"}, "Str", types.Typ[types.String]},
 	"f32fin":       {[]string{"Flt"}, "Bool", types.Typ[types.Bool]},
+	"err_is_range": {[]string{"Any"}, "Bool", types.Typ[types.Bool]},
+	"err_is_syntax": {[]string{"Any"}, "Bool", types.Typ[types.Bool]},
 	"nvars":        {[]string{"Any"}, "Int", types.Typ[types.Int]},
 	"enc_len":      {[]string{"Any"}, "Int", types.Typ[types.Int]},
 	"enc_at":       {[]string{"Any", "Int"}, "Int", types.Typ[types.Int]},
